@@ -4,7 +4,7 @@ set -u
 d="$1"; id="$2"; tier="${3:-quick}"
 cd /repo || exit 2
 if ! git diff --quiet; then echo "/repo dirty"; exit 2; fi
-git apply "$d/patch.diff" || { echo "patch does not apply"; exit 2; }
+git apply -v "$d/patch.diff" 2>&1 | grep -i "offset" && echo "WARNING: hunk applied with offset - check it landed in the intended function"; git diff --quiet && { echo "patch does not apply"; exit 2; }
 cd /verif
 VERIF_CACHE=/var/tmp/pysph-verif-seed VERIF_NOEVIDENCE=1 bin/check "$id" --tier "$tier" > /tmp/try_seed_$$.log 2>&1
 rc=$?
